@@ -20,6 +20,9 @@ A_STATS, A_ALGS, A_VARB, A_PARB, A_DIDX, A_DOFF, A_PIDX, A_POFF, A_PPAR, A_TRIG,
     A_ADDR, A_DEC = range(17)
 
 
+params_gfp_default = False
+
+
 class EngineListener:
     def __init__(self, emodel: dict, solver, ch=None, policy: str = "native", checks=None, cap: int = 20000):
         self.m = emodel  # engine-order model
@@ -46,6 +49,11 @@ class EngineListener:
         self.max_ratio = 0.0
         self.exec_premise_ok = True  # every execution returned exactly the reference hull (C08 clause 3)
         self.all_exact_types = all(p[1] in R.BC_EXACT for p in emodel["props"])
+        # a shared domain at two positions of one constraint: view-exact operators are not exact on shared domains
+        self.aliased = any(
+            len(set(emodel["idx"][v] for v in p[0])) != len(p[0]) for p in emodel["props"]
+        )
+        self.gfp_compare = params_gfp_default
         self.fix_states = set()
         self.solutions_seen = 0
         self.disabled_checked = 0
@@ -204,8 +212,12 @@ class EngineListener:
         self.orders = []
         S = int(sum(max(0, int(hi) - int(lo)) for lo, hi in entry))
         self.last_status = None
+        self.exec_premise_ok = True
+        flags_entry = ne[top].copy()
         status = orig(*args)
         self.close_exec()
+        if self.gfp_compare and "C08" in self.checks and self.all_exact_types and not self.aliased and self.P:
+            self.compare_with_reference_gfp(entry, stack[top], ne[top], status)
         if status == PROBLEM_INCONSISTENT and self.last_status != PROP_INCONSISTENCY:
             self.c["wb_fail"] += 1  # inconsistency found outside a constraint execution (e.g. at write-back)
         n = self.pass_execs
@@ -225,6 +237,30 @@ class EngineListener:
         if status in (PROBLEM_UNBOUND, PROBLEM_BOUND):
             self.quiescent_checks(entry, stack[top], ne[top], status, "bc")
         return status
+
+    def compare_with_reference_gfp(self, entry, box_arr, flags_arr, status):
+        """C08 clause 3: when every execution of this pass returned exactly the reference hull of its input (the
+        premise is OBSERVED, otherwise the pass is tallied as 'premise not met' and gives no verdict), the result must
+        be the greatest common fixpoint of the exact operators, and the pass fails iff that fixpoint is empty."""
+        if not self.exec_premise_ok:
+            self.probes["gfp_premise_not_met"] += 1
+            return
+        ebox = [[int(a), int(b)] for a, b in entry]
+        if any(a > b for a, b in ebox):
+            return
+        ref = R.reference_gfp(self.m, ebox, None, self.cap)
+        if ref == "big":
+            self.probes["gfp_too_big"] += 1
+            return
+        self.probes["gfp_comparisons"] += 1
+        box = [[int(a), int(b)] for a, b in box_arr]
+        if status == PROBLEM_INCONSISTENT:
+            if ref is not None:
+                self.viol("C08", "fails-although-fixpoint-exists", f"pass on {ebox} failed but the exact operators have the non-empty greatest common fixpoint {ref}")
+        elif ref is None:
+            self.viol("C08", "consistent-although-no-fixpoint", f"pass on {ebox} returned {box} but the exact operators have no common fixpoint")
+        elif box != ref:
+            self.viol("C08", "not-the-greatest-fixpoint", f"pass on {ebox} returned {box}; the greatest common fixpoint of the exact operators is {ref} (wake order {self.orders[:12]})")
 
     def quiescent_checks(self, entry, box_arr, flags_arr, status, where):
         box = [[int(a), int(b)] for a, b in box_arr]
@@ -409,6 +445,19 @@ class EngineListener:
                     )
                 if not np.array_equal(ne[top], entry_flags):
                     self.viol("C10", "probe-flags", "a shaving probe changed the disabled-constraint flags of its level")
+            if has_shaved and int(top_arr[0]) == top:
+                triggers = args[2 + A_TRIG]
+                lo, hi = int(stack[top][dom_idx][0]), int(stack[top][dom_idx][1])
+                need = (EV_MIN if bound == 0 else EV_MAX) | (EV_GROUND if lo == hi else 0)
+                for p in range(len(queue)):
+                    if ne[top][p] and (int(triggers[dom_idx, p]) & need) and not queue[p]:
+                        self.viol(
+                            "C10",
+                            "shaved-bound-not-announced",
+                            f"a probe removed bound {bound} of domain {dom_idx} (now [{lo},{hi}], events {need}) but "
+                            f"constraint #{p} {self.m['props'][p][1]} watching {int(triggers[dom_idx, p])} on it is not queued",
+                        )
+                        break
             if has_shaved and refuted is False and all(
                 p[1] in R.BC_EXACT or p[1] == "affine_eq" for p in self.m["props"]
             ):
